@@ -38,6 +38,11 @@
      - a failed Cache.Evict undoes, newest first, the still valid operations of that pod from the eviction on
        (the code un-evicted to the CURRENT, already Releasing, status and re-fired the allocate handlers).
 
+   The whole-device transfer heuristics of gpu_sharing_node_info.go (guards N < Idle + usedGPUs ...) are
+   transcribed as they are. With a nominated pod on a node that has shared GPUs they are not symmetric
+   (known finding F23, DESIGN F9): in the larger scenarios this model itself violates C13_Rollback /
+   C13_Discard - a prediction; the verdict comes from the real traces.
+
    Quantities: GPUs in milli-GPU (1 device = 1000), CPU in milli-cores, shared GPU memory in units
    with one device = GpuMem units. All scenario data lives in the variable cfg (constant along a
    behaviour) so that trace validation can load scenarios from the trace.                       *)
